@@ -2,6 +2,7 @@ SPECIFICATION Spec
 CONSTANTS
   MaxOps = 2
   SplitPairs = TRUE
+  LocalRenameSource = TRUE
   StaleStat = FALSE
   B2B = TRUE
   WithRoot = TRUE
